@@ -280,7 +280,8 @@ def worker(points):
         warnings.simplefilter("ignore")
         if points and points[0] == "hist":
             return check_hist(points[1], points[2], tuple(points[3]))
-        return check_set(tuple(tuple(p) for p in points))
+        r = check_set(tuple(tuple(p) for p in points))
+        return r if r else [("@set", "")]
 
 
 def run(tier, seed):
